@@ -41,9 +41,14 @@ def coef_value(p, q, grain):
 
 def snap_time(t, grain, tol=1e-9):
     """time (float) -> whole grains, or None"""
-    v = float(t) / grain
+    try:
+        v = float(t) / grain
+    except Exception:
+        return None
+    if not np.isfinite(v):
+        return None
     r = round(v)
-    if not np.isfinite(v) or abs(v - r) > tol * (1.0 + abs(v)) or abs(r) > 10 ** 6:
+    if abs(v - r) > tol * (1.0 + abs(v)) or abs(r) > 10 ** 6:
         return None
     return int(r)
 
